@@ -239,6 +239,15 @@ def _gen_e2e(rng, idx):
   for _ in range(rng.randint(0, ncalls)):
     ops.insert(rng.randint(first, len(ops)), {'op': 'reply', 'pick': rng.randint(0, 10 ** 6),
                                                'kind': 'value' if rng.random() < 0.6 else 'raise'})
+  # DispatcherOpen() asked again ("wait until the client is ready"): before / between / after the early calls,
+  # after the open completed, twice in a row
+  r = rng.random()
+  nre = 0 if r < 0.45 else (1 if r < 0.8 else 2)
+  if nre:
+    at_re = rng.randint(0, len(ops))
+    for k in range(nre):
+      where = at_re if (k == 0 or rng.random() < 0.4) else rng.randint(0, len(ops))
+      ops.insert(where, {'op': 'reopen', 'wait': 1 if rng.random() < 0.5 else 0})
   # how far the loop runs between two operations
   steps = []
   for o in ops:
@@ -260,7 +269,10 @@ def _gen_e2e(rng, idx):
   return {'kind': 'e2e', 'iface': spec, 'mode': mode, 'steps': steps, 'drain': drain,
           'keep_unanswered': 1 if rng.random() < 0.15 else 0,
           'via': rng.choice(['builder', 'builder', 'direct']),
-          'open_wait': rng.choice([0, 0, -1])}
+          'open_wait': rng.choice([0, 0, -1]),
+          # a repeated Open() of the sink: the same result every time (load balancers, transport sinks), or
+          # the same while opening and a fresh completed one once open (singleton pool)
+          'stub_open': rng.choice(['same', 'same', 'fresh_done'])}
 
 
 def cases(prop, tier, seed):
@@ -277,7 +289,7 @@ def cases(prop, tier, seed):
     out.append({'ifaces': ifaces, 'uris': [_gen_uri(rng) for _ in range(rng.randint(8, 12))],
                 'via_builder': rng.random() < 0.5})
   rng2 = random.Random(7919 * int(seed) + 2020)
-  for i in range(420 if tier == 'quick' else 9000):
+  for i in range(420 if tier == 'quick' else 6000):
     out.append(_gen_e2e(rng2, i))
   return out
 
@@ -415,6 +427,7 @@ def _run_iface(loop, spec, iid, ev):
   from scales.sink import ClientMessageSink, SinkProvider
   from scales.constants import ChannelState
 
+  driver = gevent.getcurrent()
   ns = {'ORIG': ORIG, '__name__': 'generated_iface_module'}
   exec(compile(_class_source(spec), '<iface %d>' % iid, 'exec'), ns)
   I = ns[spec['cname']]
@@ -479,7 +492,14 @@ def _run_iface(loop, spec, iid, ev):
     if spec['cached']:
       ClientProxyBuilder.CreateServiceClient(I)
     b = Scales.NewBuilder(I).WithSink(RecSink.Builder()).SetTimeout(10).SetOpenTimeout(0)
-    proxy = b.Build()
+    # (in a greenlet of its own: the builder may yield)
+    r, bg = _outside(loop, b.Build, patient=True)
+    if r[0] != 'ok':
+      bg.kill(block=False)
+      loop.settle()
+      ev.append({'e': 'Client', 'i': iid, 'names': [cps(n) for n in names], 'built': 0})
+      return {'names': names, 'inherited': len(spec['classes']) > 1}
+    proxy = r[1]
     cls_same = 1 if type(proxy) is ClientProxyBuilder.CreateServiceClient(I) else 0
     loop.settle()
 
@@ -496,9 +516,19 @@ def _run_iface(loop, spec, iid, ev):
         rec['ar'].set_exception(o)
     else:
       if prog['kind'] == 'value':
-        rec['stack'].AsyncProcessResponseMessage(MethodReturnMessage(return_value=o))
+        reply = MethodReturnMessage(return_value=o)
       else:
-        rec['stack'].AsyncProcessResponseMessage(MethodReturnMessage(error=o))
+        reply = MethodReturnMessage(error=o)
+      if gevent.getcurrent() is driver:
+        # delivered the way a transport's receive loop does: from a greenlet; what escapes dies there
+        r, dg = _outside(loop, lambda: rec['stack'].AsyncProcessResponseMessage(reply))
+        if not dg.dead:
+          dg.kill(block=False)
+      else:
+        try:
+          rec['stack'].AsyncProcessResponseMessage(reply)
+        except Exception:
+          pass
 
   def err_tok(ex):
     t = pool.tok(ex)
@@ -612,10 +642,10 @@ def _run_iface(loop, spec, iid, ev):
              'aliases': [{'n': cps(n), 'fn': cps(getattr(getattr(I, n), '__name__', ''))} for n in names
                          if getattr(getattr(I, n), '__name__', n) != n]})
   ev.extend(fwds)
-  try:
-    proxy.DispatcherClose()
-  except Exception:
-    pass
+  r, cg = _outside(loop, proxy.DispatcherClose)
+  if not cg.dead:
+    cg.kill(block=False)
+    loop.settle()
   return {'names': names, 'inherited': len(spec['classes']) > 1}
 
 
@@ -674,9 +704,126 @@ def _run_uri(u, via_builder, ev):
 
 
 # ------------------------------------------------------------------- end-to-end driver
+# texts of errors / string values: format-hostile on purpose
+_TEXTS = ['boom', 'volume is 100% full', '%s', '50%d', 'GET /files/a%20b.txt returned 404', '{}', '{0} {name}', '%%',
+          '%(key)s', '%', "LIKE 'x%'", 'back\\slash \\n \\', 'tab\there\nnew line', u'café ☃ \U0001f600',
+          'quote \' " `', '', ' ', 'x' * 5000, '% ' * 400, '\x00\x7f', '100%']
+
+
+class _CodeError(Exception):
+  """an error with several args"""
+  def __init__(self, code, text):
+    Exception.__init__(self, code, text)
+    self.code = code
+
+
+class _StrError(Exception):
+  """an error with a __str__ of its own"""
+  def __init__(self, text):
+    Exception.__init__(self)
+    self.text = text
+
+  def __str__(self):
+    return self.text
+
+
+class _SubError(ValueError):
+  pass
+
+
+def _raise_plain(ex):
+  raise ex
+
+
+def _raise_formatted(cls, text):
+  # the statement that produces the error contains a per cent sign (as scales/kafka/sink.py's
+  # NoBrokerForTopicException("No broker for topic %s" % topic) does); it ends up in the captured stack
+  raise cls('request failed: %s' % text)
+
+
+def _new_error(rr):
+  text = rr.choice(_TEXTS)
+  k = rr.randrange(8)
+  if k == 0:
+    return Exception(text)
+  if k == 1:
+    return _SubError(text)
+  if k == 2:
+    return IOError(rr.choice([2, 5, 28]), text)
+  if k == 3:
+    return KeyError(text)
+  if k == 4:
+    return _CodeError(rr.choice([404, 500]), text)
+  if k == 5:
+    return _StrError(text)
+  if k == 6:
+    return RuntimeError(text, text)
+  return LookupError()
+
+
+def _error_reply(rr, MethodReturnMessage):
+  """An error answer built the way sinks build them: MethodReturnMessage(error=ex), either for an error
+  object at hand or inside `except Exception as ex` (the error then carries a traceback and the captured
+  stack is the raise site's).  -> (message, error object)"""
+  style = rr.choice(['plain', 'plain', 'caught', 'caught', 'caughtfmt'])
+  if style == 'plain':
+    ex = _new_error(rr)
+    return MethodReturnMessage(error=ex), ex
+  try:
+    if style == 'caught':
+      _raise_plain(_new_error(rr))
+    else:
+      _raise_formatted(rr.choice([_SubError, KeyError, _StrError, Exception]), rr.choice(_TEXTS))
+  except Exception as ex:
+    return MethodReturnMessage(error=ex), ex
+
+
+def _new_value(rr, seq, Obj):
+  r = rr.random()
+  if r < 0.22:
+    return rr.choice([None, None, 0, '', False, (), {}, 0.0, b'', []])
+  if r < 0.55:
+    t = rr.choice(_TEXTS)
+    return t if rr.random() < 0.5 else t + ' #' + str(seq)
+  if r < 0.65:
+    return rr.choice([lambda: list(range(20000)), lambda: 'y' * 100000 + str(seq),
+                      lambda: dict(('k' + str(i), [i]) for i in range(3000)), lambda: b'%s' * 1000])()
+  return rr.choice([lambda: Obj(), lambda: (seq, 'v'), lambda: 300000 + seq, lambda: seq + 0.5, lambda: [seq, [2]],
+                    lambda: {'%': seq}, lambda: True, lambda: frozenset([seq])])()
+
+
+def _outside(loop, fn, patient=False):
+  """Run a piece of the code under test that may legitimately yield or wait (Build(), DispatcherOpen(), a proxy
+  method, the delivery of an answer, Close()) in a greenlet of its own and step the loop, one quantum at a time,
+  until it has returned.  -> (('ok', value) | ('raise', exception) | ('blocked', None), greenlet).
+  'blocked' = it has not returned although nothing is left to run at this instant (patient: nor within one
+  second of virtual time)."""
+  import gevent
+  box = {}
+
+  def run():
+    try:
+      box['r'] = ('ok', fn())
+    except gevent.GreenletExit:
+      raise
+    except BaseException as ex:  # noqa
+      box['r'] = ('raise', ex)
+  g = gevent.spawn(run)
+  for _ in range(100000):
+    if 'r' in box:
+      break
+    if loop.step(1) == 'idle' and 'r' not in box:
+      break
+  if 'r' not in box and patient:
+    loop.run_for(1.0)
+    loop.settle()
+  return box.get('r', ('blocked', None)), g
+
+
 def _run_e2e(loop, script, ev):
   """The generated client on the REAL MessageDispatcher (Scales builder path, or ClientProxyBuilder +
-  MessageDispatcher directly) over a recording sink whose Open() result and answers the scenario controls."""
+  MessageDispatcher directly) over a recording sink whose Open() result and answers the scenario controls.
+  Everything of the code under test is called from greenlets of their own (never from the driver greenlet)."""
   import gevent
   from scales.asynchronous import AsyncResult
   from scales.constants import ChannelState, SinkProperties
@@ -691,14 +838,12 @@ def _run_e2e(loop, script, ev):
   I = ns[spec['cname']]
   names = _function_names(I)
 
-  class UserError(Exception):
-    pass
-  pool = _Pool(extra=[TypeError('t'), ValueError('boom'), LookupError(), ZeroDivisionError('z'), OSError(2, 'x'),
-                      UserError('u'), UserError('u')])
-  st = {'seq': 0, 'opened': False, 'early': 0, 'calls': 0, 'aborted': False}
+  pool = _Pool()
+  st = {'seq': 0, 'opened': False, 'early': 0, 'calls': 0, 'reopens': 0, 'escaped': 0}
   outstanding = []        # [seq, sink_stack] received, not answered
   sinks = []
   late = script['mode'] != 'after'
+  stub_open = script.get('stub_open', 'same')
 
   class RecordingSink(ClientMessageSink):
     def __init__(self, next_provider, sink_properties, global_properties):
@@ -709,6 +854,12 @@ def _run_e2e(loop, script, ev):
       sinks.append(self)
 
     def Open(self):
+      # a repeated Open() behaves like the real sink stacks': the same result (load balancers, transport
+      # sinks), or - variant - a fresh, completed one once the sink is open (singleton pool)
+      if stub_open == 'fresh_done' and self.open_ar.ready():
+        ar = AsyncResult()
+        ar.set(True)
+        return ar
       return self.open_ar
 
     def Close(self):
@@ -733,26 +884,36 @@ def _run_e2e(loop, script, ev):
       pass
 
   provider = SinkProvider(RecordingSink)()
-  if script['via'] == 'builder':
-    b = Scales.NewBuilder(I).WithSink(provider).SetTimeout(3600)
-    b.SetOpenTimeout(0 if late or script['open_wait'] == 0 else None)
-    proxy = b.Build()
-  else:
+
+  def build():
+    if script['via'] == 'builder':
+      b = Scales.NewBuilder(I).WithSink(provider).SetTimeout(3600)
+      b.SetOpenTimeout(0 if late or script['open_wait'] == 0 else None)
+      return b.Build()
     dispatcher = MessageDispatcher(I, provider, 3600, {SinkProperties.Label: 'e2e', SinkProperties.ServiceInterface: I})
     proxy = ClientProxyBuilder.CreateServiceClient(I)(dispatcher)
     proxy.DispatcherOpen()
-  sink = sinks[0]
+    return proxy
+  # Build() may wait for the open result (in its own greenlet, the loop stepped until it has returned)
+  r, g = _outside(loop, build, patient=True)
+  greenlets = [g]
   st['opened'] = not late
-  ev.append({'e': 'Client', 'i': 1, 'names': [cps(n) for n in names]})
+  ev.append({'e': 'Client', 'i': 1, 'names': [cps(n) for n in names], 'built': 1 if r[0] == 'ok' else 0})
+  info = {'names': names, 'inherited': len(spec['classes']) > 1, 'early': 0, 'calls': 0, 'reopens': 0, 'escaped': 0}
+  if r[0] != 'ok':
+    # no client: Build() raised, or never returned (the sink's open result is pending only if the builder
+    # was told not to wait)
+    g.kill(block=False)
+    loop.settle()
+    return info
+  proxy = r[1]
+  sink = sinks[0]
 
   # attributes the code proxies in both forms (a public method that is missing is the business of the
   # Iface / Fwd events)
   bases = [n for n in names if not n.startswith('__') and not n.endswith('__') and _sig_of(spec, n) >= 0
            and hasattr(proxy, n) and hasattr(proxy, n + '_async')]
   used_noarg = set()
-  free_vals = pool.values()
-  free_errs = pool.errors()
-  greenlets = []
 
   def err_tok(ex):
     t = pool.tok(ex)
@@ -765,7 +926,7 @@ def _run_e2e(loop, script, ev):
     sig = _sig_of(spec, base)
     params = _SIGS[sig][1]
     a_tok, kw_tok = _gen_args(rng, pool, sig)
-    marker = pool.add([pool.Obj(), 100000 + cid, 'call-%d' % cid][cid % 3])
+    marker = pool.add([pool.Obj(), 100000 + cid, 'call-' + str(cid)][cid % 3])
     slots = [('a', i) for i in range(len(a_tok))] + [('k', k) for k in sorted(kw_tok)]
     if slots:
       kind, where = rng.choice(slots)
@@ -805,7 +966,7 @@ def _run_e2e(loop, script, ev):
     if not st['opened']:
       st['early'] += 1
     if op['form'] == 'sync':
-      # the blocking form: from a greenlet of its own
+      # the blocking form: from a greenlet of its own, started when the loop gets to it
       def run():
         ev.append(call_ev)
         try:
@@ -818,14 +979,18 @@ def _run_e2e(loop, script, ev):
         ev.append({'e': 'Result', 'cid': cid, 'kind': 'value', 'tok': pool.tok(v)})
       greenlets.append(gevent.spawn(run))
       return
-    # the _async form: from the driver greenlet itself (it must not block)
-    ev.append(call_ev)
-    try:
-      val = getattr(proxy, attr)(*args, **kwargs)
-    except BaseException as ex:  # noqa
-      ev.append({'e': 'Ret', 'cid': cid, 'kind': 'raised'})
-      st['aborted'] = True         # (a blocking wait in the driver greenlet takes the hub down)
+
+    # the _async form: the loop is stepped until it has handed back its result object
+    def invoke():
+      ev.append(call_ev)
+      return getattr(proxy, attr)(*args, **kwargs)
+    r, g = _outside(loop, invoke)
+    greenlets.append(g)
+    if r[0] != 'ok':
+      # it raised, or it is still inside the call although nothing is left to run: not a pending result
+      ev.append({'e': 'Ret', 'cid': cid, 'kind': 'raised' if r[0] == 'raise' else 'blocked'})
       return
+    val = r[1]
     if not (hasattr(val, 'rawlink') and hasattr(val, 'ready') and hasattr(val, 'get')):
       ev.append({'e': 'Ret', 'cid': cid, 'kind': 'plain'})
       return
@@ -842,16 +1007,32 @@ def _run_e2e(loop, script, ev):
     if not outstanding:
       return
     seq, stack = outstanding.pop(op['pick'] % len(outstanding))
-    kind = op['kind']
-    if kind == 'raise' and not free_errs:
-      kind = 'value'
-    src = free_errs if kind == 'raise' else free_vals
-    tok = src.pop(op['pick'] % len(src))
-    ev.append({'e': 'Reply', 'seq': seq, 'kind': kind, 'tok': tok})
-    if kind == 'value':
-      stack.AsyncProcessResponseMessage(MethodReturnMessage(return_value=pool.objs[tok]))
+    rr = random.Random(op['pick'])
+    if op['kind'] == 'value':
+      obj = _new_value(rr, seq, pool.Obj)
+      reply = MethodReturnMessage(return_value=obj)
     else:
-      stack.AsyncProcessResponseMessage(MethodReturnMessage(error=pool.objs[tok]))
+      reply, obj = _error_reply(rr, MethodReturnMessage)
+    pool.add(obj)
+    ev.append({'e': 'Reply', 'seq': seq, 'kind': op['kind'], 'tok': pool.tok(obj)})
+    # delivered the way a transport's receive loop does: from a greenlet; what escapes from the response
+    # processing dies there (the call it was for is judged by the End clause)
+    r, g = _outside(loop, lambda: stack.AsyncProcessResponseMessage(reply))
+    greenlets.append(g)
+    if r[0] != 'ok':
+      st['escaped'] += 1
+
+  def do_reopen(op):
+    # "wait until the client is ready": DispatcherOpen() again, optionally waiting on what it returns
+    st['reopens'] += 1
+    ev.append({'e': 'Reopen', 'wait': op['wait']})
+
+    def again():
+      ar = proxy.DispatcherOpen()
+      if op['wait'] and hasattr(ar, 'wait'):
+        ar.wait()
+    r, g = _outside(loop, again)
+    greenlets.append(g)
 
   def do(op):
     k = op['op']
@@ -863,6 +1044,8 @@ def _run_e2e(loop, script, ev):
       st['opened'] = True
     elif k == 'reply':
       do_reply(op)
+    elif k == 'reopen':
+      do_reopen(op)
     elif k == 'step':
       loop.step(op['n'])
     elif k == 'settle':
@@ -870,28 +1053,26 @@ def _run_e2e(loop, script, ev):
 
   for op in script['steps']:
     do(op)
-    if st['aborted']:
-      break
-  if not st['aborted']:
-    do({'op': 'open'})
+  do({'op': 'open'})
+  loop.settle()
+  for op in script['drain']:
+    if op['op'] == 'reply' and len(outstanding) <= script['keep_unanswered']:
+      continue
+    do(op)
+  # quiescent, also for an implementation that needs a moment (virtual time; far below the call timeout)
+  loop.run_for(1.0)
+  loop.settle()
+  ev.append({'e': 'End', 'opened': 1})
+  for g in greenlets:
+    if not g.dead:
+      g.kill(block=False)
+  loop.settle()
+  r, g = _outside(loop, proxy.DispatcherClose)
+  if not g.dead:
+    g.kill(block=False)
     loop.settle()
-    for op in script['drain']:
-      if op['op'] == 'reply' and len(outstanding) <= script['keep_unanswered']:
-        continue
-      do(op)
-    # quiescent, also for an implementation that needs a moment (virtual time; far below the call timeout)
-    loop.run_for(1.0)
-    loop.settle()
-    ev.append({'e': 'End', 'opened': 1})
-    for g in greenlets:
-      if not g.dead:
-        g.kill(block=False)
-    loop.settle()
-    try:
-      proxy.DispatcherClose()
-    except Exception:
-      pass
-  return {'names': names, 'inherited': len(spec['classes']) > 1, 'early': st['early'], 'calls': st['calls']}
+  info.update(early=st['early'], calls=st['calls'], reopens=st['reopens'], escaped=st['escaped'])
+  return info
 
 
 def run_case(script):
@@ -901,8 +1082,8 @@ def run_case(script):
   if script.get('kind') == 'e2e':
     i = _run_e2e(loop, script, ev)
     return {'cfg': {'kind': 'e2e'}, 'ev': ev,
-            'meta': {'inherited': i['inherited'], 'early': i['early'], 'calls': i['calls'],
-                     'errors': [list(e[1:3]) for e in loop.errors][:3]}}
+            'meta': {'inherited': i['inherited'], 'early': i['early'], 'calls': i['calls'], 'reopens': i['reopens'],
+                     'escaped': i['escaped'], 'errors': [list(e[1:3]) for e in loop.errors][:3]}}
   for iid, spec in enumerate(script['ifaces']):
     info.append(_run_iface(loop, spec, iid + 1, ev))
   for u in script['uris']:
